@@ -1168,7 +1168,14 @@ func c07GenAll(r *rand.Rand, tier string) []string {
 	r2 := rand.New(rand.NewSource(r.Int63()))
 	for i := range out {
 		if r2.Intn(3) == 0 && !strings.Contains(out[i], " rd=") {
-			out[i] += fmt.Sprintf(" rd=%d", readSizes[r2.Intn(len(readSizes))])
+			n := readSizes[r2.Intn(len(readSizes))]
+			// a bufio.Scanner re-scans its whole buffer for the newline after every Read: a uri line of L bytes read n bytes at
+			// a time costs L*L/(2n) byte comparisons (2.6 MB two bytes at a time: minutes - the library's own behaviour, not a
+			// hang of the decoder). Files with very long uri lines are read through short reads of at least a page.
+			if strings.HasPrefix(out[i], "fmt=uri ") && len(out[i]) > 400000 && n < 1000 {
+				n += 4095
+			}
+			out[i] += fmt.Sprintf(" rd=%d", n)
 		}
 		// one case in five: the file's last Read returns its data together with io.EOF
 		if r2.Intn(5) == 0 && !strings.Contains(out[i], " eofd=") {
